@@ -359,6 +359,14 @@ fn get_min_fold_count_limit(carrier: &mut QueryCarrier, fold: &IRFold) -> Option
     result
 }
 
+/// Whether anything inside this component, or inside any `@fold` nested within it, is an output.
+fn component_has_outputs(component: &IRQueryComponent) -> bool {
+    !component.outputs.is_empty()
+        || component.folds.values().any(|fold| {
+            !fold.fold_specific_outputs.is_empty() || component_has_outputs(&fold.component)
+        })
+}
+
 fn collect_fold_elements<'query, Vertex: Clone + Debug + 'query>(
     mut iterator: ContextIterator<'query, Vertex>,
     max_fold_count_limit: &Option<usize>,
@@ -505,21 +513,29 @@ fn compute_fold<'query, AdapterT: Adapter<'query> + 'query>(
     // of the fold, we can stop computing the rest of the fold after seeing we have 11 elements.
     let min_fold_size =
         if let Some(min_fold_size) = get_min_fold_count_limit(carrier, fold.as_ref()) {
-            let no_outputs_in_fold = fold.component.outputs.is_empty();
+            let no_outputs_in_fold = !component_has_outputs(&fold.component);
             let has_output_on_fold_count =
                 fold.fold_specific_outputs.values().any(|x| *x == FoldSpecificFieldKind::Count);
+            let is_tag_on_this_fold_count = |field_ref: &FieldRef| {
+                matches!(
+                    field_ref,
+                    FieldRef::FoldSpecificField(tagged_fold_count)
+                        if tagged_fold_count.fold_root_vid == fold.to_vid
+                            && tagged_fold_count.fold_eid == fold.eid
+                            && tagged_fold_count.kind == FoldSpecificFieldKind::Count
+                )
+            };
             let has_tag_on_fold_count = parent_component.vertices.values().any(|vertex| {
                 vertex.filters.iter().any(|filter| {
-                    let Some(Argument::Tag(FieldRef::FoldSpecificField(tagged_fold_count))) =
-                        filter.right()
-                    else {
-                        return false;
-                    };
-
-                    tagged_fold_count.fold_root_vid == fold.to_vid
-                        && tagged_fold_count.fold_eid == fold.eid
-                        && tagged_fold_count.kind == FoldSpecificFieldKind::Count
+                    matches!(filter.right(), Some(Argument::Tag(field_ref)) if is_tag_on_this_fold_count(field_ref))
                 })
+            }) || parent_component.folds.values().any(|other_fold| {
+                // The tagged count may also be used inside another `@fold` (which then imports it)
+                // or in a filter on another fold's count.
+                other_fold.imported_tags.iter().any(is_tag_on_this_fold_count)
+                    || other_fold.post_filters.iter().any(|filter| {
+                        matches!(filter.right(), Some(Argument::Tag(field_ref)) if is_tag_on_this_fold_count(field_ref))
+                    })
             });
 
             if no_outputs_in_fold && !has_output_on_fold_count && !has_tag_on_fold_count {
